@@ -832,7 +832,10 @@ func replay(path string) int {
 func selftest(name string, runs int) int {
 	var h *harnessSpec
 	prop := ""
-	if p, ok := properties[name]; ok {
+	if hn, id, ok := strings.Cut(name, ":"); ok {
+		// <harness>:<property>: a later stage of a multi-stage property
+		h, prop = harnessByName(hn), id
+	} else if p, ok := properties[name]; ok {
 		h = harnessByName(p.harness)
 		prop = name
 	} else {
